@@ -73,6 +73,29 @@ impl Profile {
         }
     }
 
+    /// Profile of one case. C01 (convergence under *any* history/schedule) and C09 draw from
+    /// several focus profiles so that their oracles also meet the regions the other profiles make dense.
+    pub fn for_case(prop: &str, seed: u64) -> Self {
+        match prop {
+            "C01" => {
+                let which = ["C01", "C01", "C02", "C03", "C08", "C10", "C11", "C16"][(seed % 8) as usize];
+                let mut p = Self::for_prop(which);
+                if which != "C01" {
+                    p.w_restart = 1;
+                }
+                p
+            }
+            "C09" => {
+                let which = ["C09", "C09", "C05", "C03", "C10", "C09"][(seed % 6) as usize];
+                let mut p = Self::for_prop(which);
+                p.w_conn = 0;
+                p.w_restart = 0;
+                p
+            }
+            _ => Self::for_prop(prop),
+        }
+    }
+
     pub fn for_prop(prop: &str) -> Self {
         let mut p = Profile::base("balanced");
         match prop {
@@ -333,6 +356,16 @@ impl Sim {
         let mut rng = Rng::new(seed);
         let mut server = mk_app(&cfg, Role::Server);
         server.world_mut().resource_mut::<RepliconServer>().set_running(true);
+        // a server that has been ticking for a while: tick varints of 1, 2, 3 and 4 bytes
+        let bump: u32 = match rng.below(8) {
+            0 => 100 + rng.below(40) as u32,
+            1 => 16_350 + rng.below(60) as u32,
+            2 => 2_097_100 + rng.below(100) as u32,
+            _ => 0,
+        };
+        if bump > 0 {
+            server.world_mut().resource_mut::<ServerTick>().increment_by(bump);
+        }
         let ch = server.world().resource::<RepliconChannels>().clone();
         let schan = ch.server_channels().to_vec();
         let cchan = ch.client_channels().to_vec();
